@@ -124,6 +124,29 @@ func init() {
 		return Iface{t: types.NewPointer(t), v: Ptr{obj: o}}
 	})
 
+	// ---------- context (no deadlines: cancellation is driven by the harness's own Context model) ----------
+	ctxDerive := func(in *Interp, c *Frame, fn *ssa.Function, a []Value) Value {
+		cancel := &Closure{native: func(in *Interp, args []Value) Value { return nil }}
+		return Tuple{a[0], cancel}
+	}
+	reg("context.WithTimeout", ctxDerive)
+	reg("context.WithCancel", ctxDerive)
+	reg("context.WithDeadline", ctxDerive)
+	reg("context.WithCancelCause", ctxDerive)
+	reg("context.WithValue", func(in *Interp, c *Frame, fn *ssa.Function, a []Value) Value { return a[0] })
+	reg("context.WithoutCancel", func(in *Interp, c *Frame, fn *ssa.Function, a []Value) Value { return a[0] })
+
+	// ---------- logging / metrics: empty bodies ----------
+	regPS("go.uber.org/zap.", "", nop)
+	regPS("(*go.uber.org/zap.", "", nop)
+	regPS("(go.uber.org/zap.", "", nop)
+	regPS("(*github.com/NethermindEth/juno/utils/log.ZapLogger).", "", nop)
+	regPS("(github.com/prometheus/client_golang/prometheus.", "", nop)
+	regPS("(*github.com/prometheus/client_golang/prometheus.", "", nop)
+	regPS("github.com/prometheus/client_golang/prometheus.", "", nop)
+	reg("time.Since", func(in *Interp, c *Frame, fn *ssa.Function, a []Value) Value { return in.st.Const(64, 0) })
+	reg("time.Now", func(in *Interp, c *Frame, fn *ssa.Function, a []Value) Value { return in.zero(fn.Signature.Results().At(0).Type()) })
+
 	// ---------- sync ----------
 	for _, n := range []string{"(*sync.Mutex).Lock", "(*sync.Mutex).Unlock", "(*sync.RWMutex).Lock", "(*sync.RWMutex).Unlock",
 		"(*sync.RWMutex).RLock", "(*sync.RWMutex).RUnlock", "(*sync.WaitGroup).Add", "(*sync.WaitGroup).Done", "(*sync.WaitGroup).Wait",
